@@ -45,10 +45,20 @@ MCFieldSet(c) ==
           THEN IF lv.style = "tuple" /\ Len(lv.fields) = 0 THEN { f \in afford : f.into = <<>> } ELSE {}
           ELSE afford
 
-MCAdmissible(c) ==
-  /\ IntoWellDesignated(c)
+MCBoundOK(c) ==
+  /\ NVariants(c) >= 1
+  /\ \A v \in 1..NVariants(c) : NFields(c, v) >= 1
   /\ VarsDev(c.variants) <= MaxDeviations
   /\ NVariants(c) > 1 => \E v \in 1..NVariants(c) : PlainVar(c.variants[v])
+  \* what is left to the semantic predicate: the designation itself; an identity-less conversion from a
+  \* target-typed field (A into B) is simply ill-typed user input, not a refusal, so it stays out of both corpora
+  /\ \A v \in 1..NVariants(c) : \A k \in DOMAIN c.opts.targets :
+        LET t == c.opts.targets[k] IN
+          IntoField(c, v, t) # 0 => (IntoMode(c, v, t) = "convert" => c.variants[v].fields[IntoField(c, v, t)].ty = "P")
+\* a target without a designated field, or with several
+MCSemOK(c) == IntoWellDesignated(c)
+MCAdmissible(c) == MCBoundOK(c) /\ MCSemOK(c)
+DoSealBad == SealBad(MCBoundOK, MCSemOK) /\ UNCHANGED run
 
 Init == BuildInit /\ run = NoRun
 
@@ -85,7 +95,7 @@ Return ==
   /\ run' = NoRun
   /\ UNCHANGED <<cfg, phase>>
 
-Next == DoStart \/ DoAddVariant \/ DoAddField \/ DoSeal \/ DoBegin \/ Step \/ Return
+Next == DoStart \/ DoAddVariant \/ DoAddField \/ DoSeal \/ DoSealBad \/ DoBegin \/ Step \/ Return
 Spec == Init /\ [][Next]_vars
 
 Finished == run # NoRun /\ run.done
